@@ -430,6 +430,31 @@ def centroid_sweep(rep, r, n):
         # centroid_sources: translation + transposition
         dy, dx, NY, NX = offsets(r, ny, nx)
         x0, y0 = pos[0]
+        # centroid_quadratic started from a given peak, the maximum searched in a box around it: translation (dx != dy most of the time)
+        # and transposition (seed C03-r13 re-based the row index of the maximum found in the search box with the column start)
+        sb_ = r.choice([3, 5, (3, 5), (5, 3)])
+        sbT_ = sb_ if np.isscalar(sb_) else sb_[::-1]
+        xp_, yp_ = min(max(round(x0) + r.choice([-1, 0, 1]), 0), nx - 1), min(max(round(y0) + r.choice([-1, 0, 1]), 0), ny - 1)
+        with warnings.catch_warnings():
+            warnings.simplefilter('ignore')
+            try:
+                qa = np.asarray(centroid_quadratic(img, xpeak=xp_, ypeak=yp_, search_boxsize=sb_), float)
+                qb = np.asarray(centroid_quadratic(embed(img, NY, NX, dy, dx), xpeak=xp_ + dx, ypeak=yp_ + dy, search_boxsize=sb_), float)
+                qc = np.asarray(centroid_quadratic(img.T.copy(), xpeak=yp_, ypeak=xp_, search_boxsize=sbT_), float)
+            except Exception as e:                                  # noqa: BLE001
+                rep.violation(f'centroid_quadratic-raises:search_boxsize:{type(e).__name__}', f'centroid_quadratic(xpeak, ypeak, search_boxsize) raised {e!r}', rp)
+                qa = None
+        if qa is not None:
+            rq = dict(rp, xpeak=xp_, ypeak=yp_, search_boxsize=sb_, offset=[dx, dy])
+            # the embedding adds zero pixels: a search box that reaches beyond the original frame sees them, so only boxes inside it are compared
+            hy_, hx_ = (sb_ // 2, sb_ // 2) if np.isscalar(sb_) else (sb_[0] // 2, sb_[1] // 2)
+            inside_ = hy_ <= yp_ < ny - hy_ and hx_ <= xp_ < nx - hx_ and 2 <= qa[0] < nx - 2 and 2 <= qa[1] < ny - 2 if np.all(np.isfinite(qa)) else False
+            if inside_ and not close(qa + np.array([dx, dy]), qb, 1e-7):
+                rep.violation('centroid_quadratic-translate:search_boxsize', f'centroid_quadratic(xpeak={xp_}, ypeak={yp_}, search_boxsize={sb_}) = {qa.tolist()}; '
+                              f'on the image embedded at ({dx},{dy}) with the shifted start it is {qb.tolist()}', rq)
+            elif not close(qa[::-1], qc, 1e-7):
+                rep.violation('centroid_quadratic-transpose:search_boxsize', f'centroid_quadratic(xpeak={xp_}, ypeak={yp_}, search_boxsize={sb_}) = {qa.tolist()} '
+                              f'but on the transposed image with the swapped start {qc.tolist()}', rq)
         with warnings.catch_warnings():
             warnings.simplefilter('ignore')
             try:
